@@ -94,11 +94,11 @@ PROPS = {
              "prefix iteration and retained snapshots; the root must equal an independently computed MPT root, so order-independence is checked against a spec-level "
              "reference. Exploration.",
              "trusts the in-file reference encoder with goloop's <=32-byte embedding rule; empty values, DB errors and concurrency are not covered", "DESIGN §7 (C17)"),
-    "C18": P("hdata", "rapid; genuine proofs verified by a root-only trie on an empty DB; constructed single-element alterations and foreign-root proofs must be rejected",
+    "C18": P("hdata", "rapid; genuine proofs verified by a root-only trie on an empty DB; constructed single-element alterations and foreign-root proofs must be rejected; native go fuzz of the verifier (soundness oracle) in thorough",
              "Completeness for every sampled stored key from three proof sources; soundness for absent keys and foreign proofs; every single-element alteration and "
              "other-root proof must be rejected, on fresh and reused verifiers. Exploration.",
              "trailing appended proof elements are not demanded to fail; a nil-pointer panic of Prove for one absent-key shape is recorded as a label and not judged "
-             "(the statement only says no value is yielded)", "DESIGN §7 (C18)"),
+             "(the statement only says no value is yielded)", "DESIGN §7 (C18)", fuzz=[("FuzzC18Prove", 120)]),
     "C19": P("hdata", "rapid histories vs overlay+tombstone model on a spied MapDB, including stacked layers",
              "Every get/has is checked against the model; at each commit or discard the entire underlying store and all layer views are compared key by key, including "
              "keys never used by the case. Exploration.",
@@ -246,10 +246,10 @@ PROPS = {
              "every voter's credit equals the floor share computed from the generated history. Exploration.",
              "trusts icstage/icreward storage and PRep.VoterReward/GetReward as the observation; rewardability and the inter-P-Rep split are not decided",
              "DESIGN §9 (C35)"),
-    "C36": P("hdata2", "rapid; round trip plus must-accept/must-reject against the regular language ^(hx|cx)[0-9a-f]{40}$ with 15 near-miss mutation kinds",
+    "C36": P("hdata2", "rapid; round trip plus must-accept/must-reject against the regular language ^(hx|cx)[0-9a-f]{40}$ with 15 near-miss mutation kinds; native go fuzz of the strict parser in thorough",
              "The strict parser's verdict is compared with the regular language for 20k addresses and candidates per run, including case, length, prefix and unicode "
              "near misses, and all byte forms are round-tripped into stale receivers. Exploration.",
-             "the canonical form is taken from server/jsonrpc/validator.go", "DESIGN §7 (C36)"),
+             "the canonical form is taken from server/jsonrpc/validator.go", "DESIGN §7 (C36)", fuzz=[("FuzzC36Strict", 60)]),
 }
 
 # properties not (yet) claimed -> reason
